@@ -75,6 +75,33 @@ def run(tier, seed):
         got = vlib.unhexs(o.split(' ')[1]) if o.startswith('ok ') else o
         chk.fail(key, {'clause': kind + '-position', 'version': v, 'segment': seg, 'index': i, 'expected': want, 'got': got,
                        'parsed_back': o.split(' ')[2] if o.startswith('ok ') else None}, rep)
+    # ---- several positions at once in open-ended segments (Z segments, segments ending in a 'varies' field): every value at its own index
+    mjobs = []
+    for v in VERSIONS:
+        lib = hl7apy.load_library(v)
+        opens = [(n, len(lib.SEGMENTS[n][1])) for n in sorted(lib.SEGMENTS) if n not in ex.get(v, []) and gen.is_seq(lib.SEGMENTS[n]) and len(lib.SEGMENTS[n]) > 1
+                 and gen.is_seq(lib.SEGMENTS[n][1]) and lib.SEGMENTS[n][1] and gen.is_seq(lib.SEGMENTS[n][1][-1]) and len(lib.SEGMENTS[n][1][-1]) == 4
+                 and gen.well_formed_ref(lib.SEGMENTS[n][1][-1][1]) and len(lib.SEGMENTS[n][1][-1][1]) == 6 and lib.SEGMENTS[n][1][-1][1][2] == 'varies']
+        for seg, n in opens + [('ZAB', 0), ('ZZ9', 0)]:
+            sets = [[2, 10], [9, 10], [5, 12], [20, 100], list(range(1, 13)), sorted(rng.sample(range(1, 40), 4))]
+            for idxs in (sets if v in full else rng.sample(sets, 2)):
+                idxs = [n + i for i in idxs]
+                mjobs.append((v, seg, [('%s_%d' % (seg.lower(), i), 'v%dx' % i) for i in idxs], idxs))
+    ma = vlib.pmap(impl.setmany, [j[:3] for j in mjobs])
+    for (v, seg, pairs, idxs), o in zip(mjobs, ma):
+        chk.evals += 1
+        parts = [''] * (max(idxs) + 1)
+        parts[0] = seg
+        for i in idxs:
+            parts[i] = 'v%dx' % i
+        want = '|'.join(parts)
+        rep = {'api': "s = Segment(segment, version); for (attribute, value): setattr(s, attribute, value); s.to_er7()", 'version': v, 'segment': seg, 'pairs': pairs}
+        if o == 'ok ' + vlib.hexs(want):
+            chk.nontrivial.add((v, seg, tuple(idxs)))
+            continue
+        chk.fail(None, {'clause': 'open-ended-positions-together', 'version': v, 'segment': seg, 'indices': idxs, 'expected': want,
+                        'got': vlib.unhexs(o[3:]) if o.startswith('ok ') else o}, rep)
+    chk.dist['open_ended_multi_position_cases'] = len(mjobs)
     # ---- datatype positions: through a named field of that datatype, else through a named component of it
     djobs, dmeta = [], []
     noholder = 0
@@ -136,7 +163,9 @@ def replay(path):
     d = json.load(open(path))
     r = d['replay']
     print(json.dumps(d['what'], indent=1))
-    if 'segment' in r:
+    if 'pairs' in r:
+        print(impl.setmany((r['version'], r['segment'], [tuple(x) for x in r['pairs']])))
+    elif 'segment' in r:
         print(impl.setf((r['version'], r['segment'], r['attribute'], r['value'])))
     else:
         print(impl.setdt((r['version'], r['holder_kind'], r['holder'], r['datatype'], r['component'], r['sub_datatype'], r['subcomponent'], r['value'])))
